@@ -9,6 +9,7 @@ from harness import kcommon
 
 class H(Harness):
     ID = 'C05'
+    ANCHOR_FILES = ['epydemic/synchronousdynamics.py', 'epydemic/stochasticdynamics.py', 'epydemic/sir_model_variable_infection.py', 'epydemic/process.py', 'epydemic/drawset.py']
     TIE_IMPORT = kcommon.TIE_IMPORT
     CHECK_FN = kcommon.CHECK_FN
     VO_TARGETS = ['Properties/C05.vo', 'Tie/Kernel.vo']
